@@ -351,6 +351,11 @@ func VerifyHashed(pubx, puby, e, r, s []byte) (bool, error) {
 		return false, err
 	}
 
+	// the standard requires [s]G + [t]P to be a finite point; infinity has no x coordinate
+	if len(result.Bytes_Unsafe()) == 1 {
+		return false, errors.New("[s]G + [t]P is the point at infinity")
+	}
+
 	R := result.GetAffineX_Unsafe()
 	eInt.SetBytes(e)
 	R.Add(R, &eInt)
